@@ -1,11 +1,25 @@
 /-
 C15 — closed-form trainers produce the exact solution of their stated problem.
-Property theorems about the models of `Model/Trainers.lean` (tied to the real Shark
-trainers by `checks/c15.py`).
+
+Property theorems about the exact-arithmetic (`Rat`) models of `Model/Trainers.lean`,
+which are tied to the real Shark trainers by the correspondence check `checks/c15.py`
+(harness/c15.cpp, harness/c15b.cpp, driver `drv_c15`).  Helper lemmas live in
+`Lemmas/Trainers.lean`, `Lemmas/LinReg.lean`, `Lemmas/Stats.lean`.
+
+All statements quantify over every dataset (any number of points, any dimension, rows
+of any length — components beyond the end of a row read as 0 —, rank-deficient or
+constant features, more features than points) and every partition into batches.
+Square roots, logarithms, the eigen-solver and the semi-definite solver are parameters;
+what is assumed about them is a hypothesis of the theorem that uses them, and each such
+hypothesis is checked on the values the real code returns by the correspondence.
 -/
-import SharkVerif.Lemmas.Trainers
+import SharkVerif.Lemmas.LinReg
+import Mathlib.Tactic.NormNum
+import Mathlib.Tactic.IntervalCases
 namespace SharkVerif.C15
 open SharkVerif.Trainers
+
+/-! ## Statistics over batches -/
 
 /-- **Batch independence of the statistics.**  For every way of cutting the same
 sequence of rows into batches, the accumulated mean, variance and covariance are the
@@ -17,5 +31,82 @@ theorem meanvar_batch_independent (bs bs' : List (List Vec)) (h : bs.flatten = b
   refine ⟨hm j, ?_, ?_⟩
   · simp only [variance, bsum_eq_flatten, count_eq_flatten, h, hm]
   · simp only [covariance, bsum_eq_flatten, count_eq_flatten, h, hm]
+
+/-! ## Linear (ridge) regression -/
+
+/-- **Normal equations ⇔ vanishing gradient** (every `n`, `d`, label column `c`, batch
+partition, `λ`): the parameter column `β` satisfies `(A·β)_i = (XᵀL)_{ic}` for all rows
+`i ≤ d` of the accumulated system of `LinearRegression::train` iff every partial
+derivative `linregGradient` of `½ Σ((x|1)·β − l_c)² + ½ λ Σ_{j<d} β_j²` vanishes. -/
+theorem linreg_normal_equations (bs : LData) (d : Nat) (lam : Rat) (c : Nat) (β : Nat → Rat) :
+    (∀ i, i ≤ d → matMul (d + 1) (linregA bs d lam) (fun j _ => β j) i 0 = linregRhs bs d i c)
+      ↔ ∀ i, i ≤ d → linregGradient bs d lam c β i = 0 :=
+  normalEq_iff_gradient bs d lam c β
+
+/-- `linregGradient` *is* the gradient: the objective is exactly
+`E(β+δ) = E(β) + ⟨∇E(β), δ⟩ + Q(δ)` with the non-negative quadratic form
+`Q(δ) = ½ Σ ((x|1)·δ)² + ½ λ Σ_{j<d} δ_j²`. -/
+theorem linreg_objective_expansion (bs : LData) (d : Nat) (lam : Rat) (c : Nat) (β δ : Nat → Rat) :
+    linregObjective bs d lam c (fun j => β j + δ j)
+      = linregObjective bs d lam c β + rsum (d + 1) (fun i => linregGradient bs d lam c β i * δ i)
+        + linregQuad bs d lam δ
+    ∧ (0 ≤ lam → 0 ≤ linregQuad bs d lam δ) :=
+  ⟨objective_expansion bs d lam c β δ, fun h => linregQuad_nonneg bs d lam h δ⟩
+
+/-- **Stationary ⇔ optimal.**  For `λ ≥ 0` the normal equations hold at `β` iff `β` is a
+global minimiser of the regularised squared error (rank-deficient data and `d > n`
+included: no uniqueness is claimed). -/
+theorem linreg_normal_equations_iff_minimiser (bs : LData) (d : Nat) (lam : Rat) (hlam : 0 ≤ lam) (c : Nat)
+    (β : Nat → Rat) :
+    NormalEq bs d lam c β ↔ ∀ β', linregObjective bs d lam c β ≤ linregObjective bs d lam c β' :=
+  ⟨minimiser_of_normalEq bs d lam hlam c β, normalEq_of_minimiser bs d lam hlam c β⟩
+
+/-- specification of `solve(A, B, symm_semi_pos_def, left)`: it returns a solution
+whenever one exists -/
+def SolverSpec (solve : Solver) : Prop :=
+  ∀ n k A R, (∃ X : Nat → Nat → Rat, ∀ i, i < n → ∀ c, c < k → matMul n A X i c = R i c) →
+    ∀ i, i < n → ∀ c, c < k → matMul n A (solve n k A R) i c = R i c
+
+/-- **The trained model is optimal** (all `n`, `d`, `k`, batch partitions, `λ ≥ 0`): if the
+solver meets its specification and the accumulated system is solvable, the parameters
+returned by `LinearRegression::train` make the gradient vanish in every output column
+and minimise the total regularised squared error over all parameter matrices. -/
+theorem linreg_train_optimal (solve : Solver) (hs : SolverSpec solve) (bs : LData) (d k : Nat) (lam : Rat)
+    (hlam : 0 ≤ lam)
+    (hcons : ∃ X : Nat → Nat → Rat, ∀ i, i < d + 1 → ∀ c, c < k →
+      matMul (d + 1) (linregA bs d lam) X i c = linregRhs bs d i c) :
+    let B := linregTrain solve bs d k lam
+    (∀ c, c < k → ∀ i, i ≤ d → linregGradient bs d lam c (fun j => B j c) i = 0)
+    ∧ ∀ B' : Nat → Nat → Rat, linregObjectiveAll bs d k lam B ≤ linregObjectiveAll bs d k lam B' := by
+  intro B
+  have hB : ∀ c, c < k → NormalEq bs d lam c (fun j => B j c) := by
+    intro c hc i hi
+    exact hs (d + 1) k _ _ hcons i (by omega) c hc
+  refine ⟨fun c hc => (normalEq_iff_gradient bs d lam c _).mp (hB c hc), fun B' => ?_⟩
+  unfold linregObjectiveAll
+  have : ∀ c, c < k → 0 ≤ linregObjective bs d lam c (fun j => B' j c) - linregObjective bs d lam c (fun j => B j c) := by
+    intro c hc
+    have := minimiser_of_normalEq bs d lam hlam c _ (hB c hc) (fun j => B' j c)
+    linarith
+  have h2 := rsum_nonneg this
+  rw [rsum_sub] at h2
+  linarith
+
+/-- the accumulated system does not depend on the batch partition, hence neither does
+the trained model (for any solver, as a function of the system) -/
+theorem linreg_batch_independent (solve : Solver) (bs bs' : LData) (h : bs.flatten = bs'.flatten)
+    (d k : Nat) (lam : Rat) :
+    linregA bs d lam = linregA bs' d lam ∧ linregRhs bs d = linregRhs bs' d
+      ∧ linregTrain solve bs d k lam = linregTrain solve bs' d k lam := by
+  have hA : linregA bs d lam = linregA bs' d lam := by
+    funext i j; simp only [linregA, bsum_eq_flatten, h]
+  have hR : linregRhs bs d = linregRhs bs' d := by
+    funext i c; simp only [linregRhs, bsum_eq_flatten, h]
+  exact ⟨hA, hR, by unfold linregTrain; rw [hA, hR]⟩
+
+/-- non-vacuity: the points (0,1), (1,3) in two batches, `λ = 0`; `β = (2, 1)` solves the normal equations -/
+example : NormalEq [[([0], [1])], [([1], [3])]] 1 0 0 (fun j => if j = 0 then 2 else 1) := by
+  intro i hi
+  interval_cases i <;> norm_num [applyA, linregA, linregRhs, bsum, lsum, rsum, ext1, Vec.at]
 
 end SharkVerif.C15
